@@ -267,6 +267,7 @@ func (g *G) takeAggFn() (string, bool) {
 // funcs appends 0..max trailing functions. If mustSingle, the path must end single-valued
 // (an aggregate is forced after a value-group prefix).
 func (g *G) funcs(steps []Step, max int, pct int) []Step {
+	mainPath := g.depth == 0
 	for i := 0; i < max; i++ {
 		if !g.chance("fn", pct) {
 			break
@@ -278,6 +279,12 @@ func (g *G) funcs(steps []Step, max int, pct int) []Step {
 			}
 		}
 		if n, ok := g.takeFilterFn(); ok {
+			if n == "fnan" && mainPath {
+				n = "f1" // NaN must never become a result (results are compared with DeepEqual)
+				if !g.O.ReuseFuncs {
+					continue
+				}
+			}
 			steps = append(steps, Step{Kind: KFunc, Fn: n})
 		}
 	}
